@@ -210,6 +210,8 @@ class Folder:
             return str.maketrans(*args)
         if d == "bytes.maketrans":
             return bytes.maketrans(*args)
+        if d in ("MappingProxyType", "types.MappingProxyType") and len(args) == 1 and isinstance(args[0], dict):
+            return dict(args[0])  # read-only view: same mapping for folding purposes
         if d in ("str", "int", "len", "tuple", "list", "set", "frozenset", "dict", "sorted", "min", "max", "bool", "ord", "chr", "range", "bytes", "abs"):
             f = {"str": str, "int": int, "len": len, "tuple": tuple, "list": list, "set": set, "frozenset": frozenset, "dict": dict, "sorted": sorted, "min": min, "max": max, "bool": bool, "ord": ord, "chr": chr, "range": range, "bytes": bytes, "abs": abs}[d]
             return f(*args, **kwargs)
